@@ -29,6 +29,8 @@ type sv struct {
 	o    *sobj
 	text string
 	c    *scond
+	ver  int           // arg: number of stores the action had done when the value was read
+	tbl  [][2]string   // chain / nest: (node type, field that receives the accumulator)
 }
 
 type sobj struct {
@@ -133,6 +135,12 @@ func placeOf(v *sv) (int, []string, bool) {
 			return 0, nil, false
 		}
 		return i, append(append([]string(nil), p...), v.typ+"."+v.text), true
+	case "idx0", "last":
+		i, p, ok := placeOf(v.b)
+		if !ok {
+			return 0, nil, false
+		}
+		return i, append(append([]string(nil), p...), "["+v.k+"]"), true
 	}
 	return 0, nil, false
 }
@@ -147,6 +155,22 @@ func samePath(a, b []string) bool {
 		}
 	}
 	return true
+}
+
+// reread: the same place, read now (after `ver` stores)
+func reread(v *sv, ver int) *sv {
+	if v == nil {
+		return nil
+	}
+	switch v.k {
+	case "arg":
+		return &sv{k: "arg", i: v.i, ver: ver}
+	case "fld", "idx0", "last":
+		w := *v
+		w.b = reread(v.b, ver)
+		return &w
+	}
+	return v
 }
 
 func (t *tctx) field(p *spath, base *sv, typ, name string) *sv {
@@ -172,17 +196,14 @@ func (t *tctx) field(p *spath, base *sv, typ, name string) *sv {
 		}
 		if i, path, ok := placeOf(base); ok {
 			// a field this action has already assigned holds what was assigned
-			for _, m := range p.muts {
+			for j := len(p.muts) - 1; j >= 0; j-- {
+				m := p.muts[j]
 				if m.i == i && samePath(m.path, path) && m.field == name {
 					return m.val
 				}
 			}
 		}
-		b := base
-		if b.k == "arg" {
-			b = &sv{k: "orig", i: b.i}
-		}
-		return &sv{k: "fld", b: b, i: k, typ: typ, text: name}
+		return &sv{k: "fld", b: reread(base, len(p.muts)), i: k, typ: typ, text: name}
 	}
 	return &sv{k: "opaque", text: "field " + name + " of " + base.k}
 }
@@ -204,7 +225,7 @@ func (t *tctx) eval(p *spath, e ast.Expr) *sv {
 			if v, ok := p.locals[fmt.Sprintf("$%d", i)]; ok {
 				return v // the action has rebound yyDollar[i]
 			}
-			return &sv{k: "arg", i: i}
+			return &sv{k: "arg", i: i, ver: len(p.muts)}
 		}
 		if isParserSel(x, "currentToken") {
 			return &sv{k: "cur"}
@@ -213,7 +234,7 @@ func (t *tctx) eval(p *spath, e ast.Expr) *sv {
 			if p.retSet {
 				return p.ret
 			}
-			return &sv{k: "arg", i: 1}
+			return &sv{k: "arg", i: 1, ver: len(p.muts)}
 		}
 		// X.(*T).F  or  local.F
 		typ := ""
@@ -267,8 +288,25 @@ func (t *tctx) eval(p *spath, e ast.Expr) *sv {
 		if bl, ok := x.Index.(*ast.BasicLit); ok && bl.Value == "0" {
 			return &sv{k: "idx0", b: base}
 		}
-		if nodeText(x.Index) == "len("+nodeText(x.X)+")-1" || nodeText(x.Index) == "len("+nodeText(x.X)+") - 1" {
+		if strings.ReplaceAll(nodeText(x.Index), " ", "") == "len("+strings.ReplaceAll(nodeText(x.X), " ", "")+")-1" {
 			return &sv{k: "last", b: base}
+		}
+	case *ast.SliceExpr:
+		base := t.eval(p, x.X)
+		xt := nodeText(x.X)
+		lo, hi := "", ""
+		if x.Low != nil {
+			lo = strings.ReplaceAll(nodeText(x.Low), " ", "")
+		}
+		if x.High != nil {
+			hi = strings.ReplaceAll(nodeText(x.High), " ", "")
+		}
+		ln := "len(" + strings.ReplaceAll(xt, " ", "") + ")"
+		if lo == "1" && (hi == ln || hi == "") {
+			return &sv{k: "tail", b: base}
+		}
+		if (lo == "" || lo == "0") && hi == ln+"-1" {
+			return &sv{k: "init", b: base}
 		}
 	case *ast.BinaryExpr:
 		return &sv{k: "cond", c: t.cond(p, x)}
@@ -329,6 +367,17 @@ func (t *tctx) eval(p *spath, e ast.Expr) *sv {
 				}
 			}
 		}
+		if fn == "intOffset" && len(x.Args) == 2 {
+			v := t.eval(p, x.Args[0])
+			neg := nodeText(x.Args[1]) == "true"
+			if v.k == "bytes" && v.text == "" && (neg || nodeText(x.Args[1]) == "false") {
+				n := 0
+				if neg {
+					n = 1
+				}
+				return &sv{k: "cond", c: &scond{op: "intoff", v: v.b, n: n}}
+			}
+		}
 		if fn == "errors.NewError" {
 			return &sv{k: "errval"}
 		}
@@ -382,6 +431,10 @@ func (t *tctx) cond(p *spath, e ast.Expr) *scond {
 			case "okflag":
 				return &scond{op: "kind", v: v.b, typ: v.typ}
 			}
+		}
+	case *ast.CallExpr:
+		if v := t.eval(p, x); v.k == "cond" {
+			return v.c
 		}
 	case *ast.BinaryExpr:
 		switch x.Op {
@@ -468,12 +521,6 @@ func (t *tctx) assign(p *spath, lhs ast.Expr, v *sv) {
 			if t.a.fieldIdx(typ, x.Sel.Name) < 0 {
 				p.bad = append(p.bad, "store into unknown field "+typ+"."+x.Sel.Name)
 				return
-			}
-			for k := range p.muts {
-				if p.muts[k].i == i && samePath(p.muts[k].path, path) && p.muts[k].field == x.Sel.Name {
-					p.muts[k].val = v
-					return
-				}
 			}
 			p.muts = append(p.muts, smut{i: i, path: path, typ: typ, field: x.Sel.Name, val: v})
 			return
@@ -635,11 +682,120 @@ func (t *tctx) stmt(p *spath, st ast.Stmt) []*spath {
 			}
 			return out
 		}
+	case *ast.RangeStmt:
+		if t.chainLoop(p, x) {
+			return []*spath{p}
+		}
+	case *ast.ForStmt:
+		if t.nestLoop(p, x) {
+			return []*spath{p}
+		}
 	case *ast.DeclStmt, *ast.EmptyStmt:
 		return []*spath{p}
 	}
 	p.bad = append(p.bad, "statement "+clipText(nodeText(st), 70))
 	return []*spath{p}
+}
+
+// chainLoop recognises the left fold both php5 member-access productions use:
+//
+//	for _, n := range L { switch nn := n.(type) { case *T: nn.F = yyVAL.node; nn.Position = builder.NewNodesPosition(yyVAL.node, nn); yyVAL.node = nn … } }
+//
+// and replaces it by the term chain(acc, L, [(T, F)…]).
+func (t *tctx) chainLoop(p *spath, x *ast.RangeStmt) bool {
+	k, ok1 := x.Key.(*ast.Ident)
+	v, ok2 := x.Value.(*ast.Ident)
+	if !ok1 || !ok2 || k.Name != "_" || len(x.Body.List) != 1 {
+		return false
+	}
+	ts, ok := x.Body.List[0].(*ast.TypeSwitchStmt)
+	if !ok {
+		return false
+	}
+	as, ok := ts.Assign.(*ast.AssignStmt)
+	if !ok || len(as.Lhs) != 1 || nodeText(as.Rhs[0]) != v.Name+".(type)" {
+		return false
+	}
+	nn := as.Lhs[0].(*ast.Ident).Name
+	var tbl [][2]string
+	for _, cc := range ts.Body.List {
+		cl := cc.(*ast.CaseClause)
+		if len(cl.List) != 1 || len(cl.Body) != 3 {
+			return false
+		}
+		typ := typeName(cl.List[0])
+		a0, ok := cl.Body[0].(*ast.AssignStmt)
+		if !ok || len(a0.Lhs) != 1 || nodeText(a0.Rhs[0]) != "yyVAL.node" {
+			return false
+		}
+		sel, ok := a0.Lhs[0].(*ast.SelectorExpr)
+		if !ok || nodeText(sel.X) != nn {
+			return false
+		}
+		if nodeText(cl.Body[1]) != nn+".Position = yylex.(*Parser).builder.NewNodesPosition(yyVAL.node, "+nn+")" || nodeText(cl.Body[2]) != "yyVAL.node = "+nn {
+			return false
+		}
+		if t.a.fieldIdx(typ, sel.Sel.Name) < 0 {
+			return false
+		}
+		tbl = append(tbl, [2]string{typ, sel.Sel.Name})
+	}
+	acc := p.ret
+	if !p.retSet {
+		acc = &sv{k: "arg", i: 1, ver: len(p.muts)}
+	}
+	p.ret, p.retSet = &sv{k: "chain", b: acc, xs: []*sv{t.eval(p, x.X)}, tbl: tbl}, true
+	return true
+}
+
+// nestLoop recognises the right fold of `$$…$a` (php5 simple_indirect_reference):
+//
+//	for i := len($A.list) - 1; i >= 0; i-- { $A.list[i].(*T).F = $B.node; $A.list[i].(*T).Position = builder.NewNodesPosition($A.list[i], $B.node); $B.node = $A.list[i] }
+//
+// afterwards `$A.list[0]` (and `$B`) is the term nest($A, $B, [(T, F)]).
+func (t *tctx) nestLoop(p *spath, x *ast.ForStmt) bool {
+	if x.Init == nil || x.Cond == nil || x.Post == nil || len(x.Body.List) != 3 {
+		return false
+	}
+	init := nodeText(x.Init)
+	if !strings.HasPrefix(init, "i := len(") || nodeText(x.Cond) != "i >= 0" || nodeText(x.Post) != "i--" {
+		return false
+	}
+	a0, ok := x.Body.List[0].(*ast.AssignStmt)
+	if !ok || len(a0.Lhs) != 1 {
+		return false
+	}
+	sel, ok := a0.Lhs[0].(*ast.SelectorExpr)
+	if !ok {
+		return false
+	}
+	ta, ok := sel.X.(*ast.TypeAssertExpr)
+	if !ok {
+		return false
+	}
+	ix, ok := ta.X.(*ast.IndexExpr)
+	if !ok || nodeText(ix.Index) != "i" {
+		return false
+	}
+	L := nodeText(ix.X)        // yyDollar[A].list
+	B := nodeText(a0.Rhs[0])   // yyDollar[B].node
+	typ := typeName(ta.Type)
+	el := L + "[i]"
+	if strings.ReplaceAll(init, " ", "") != "i:=len("+L+")-1" {
+		return false
+	}
+	if nodeText(x.Body.List[1]) != el+".(*"+strings.TrimPrefix(nodeText(ta.Type), "*")+").Position = yylex.(*Parser).builder.NewNodesPosition("+el+", "+B+")" || nodeText(x.Body.List[2]) != B+" = "+el {
+		return false
+	}
+	ia, _, okA := dollarIndex(ix.X)
+	ib, _, okB := dollarIndex(a0.Rhs[0])
+	if !okA || !okB || t.a.fieldIdx(typ, sel.Sel.Name) < 0 {
+		return false
+	}
+	nest := &sv{k: "nest", b: t.eval(p, ix.X), xs: []*sv{t.eval(p, a0.Rhs[0])}, tbl: [][2]string{{typ, sel.Sel.Name}}}
+	p.locals[fmt.Sprintf("$%d", ia)] = &sv{k: "list", xs: []*sv{nest}}
+	p.locals[fmt.Sprintf("$%d", ib)] = nest
+	return true
 }
 
 // ---------------------------------------------------------------- emission
@@ -650,10 +806,12 @@ type temit struct {
 	combNo  map[string]int
 	objIdx  map[*sobj]int
 	bad     *[]string
-	mutated map[int]bool
-	posMut  map[int]bool
-	inMut   bool
-	inPos   bool
+	lastMutOf map[int]int // $i -> index of the last store into it (-1: none)
+	inMut     bool
+	mutIdx    int
+	inPos     bool
+	inRead    int
+	inCond    bool
 }
 
 func (e *temit) tm(v *sv) string {
@@ -661,21 +819,17 @@ func (e *temit) tm(v *sv) string {
 		return ".nil"
 	}
 	switch v.k {
-	case "orig":
-		return fmt.Sprintf("(.orig %d)", v.i)
 	case "arg":
-		if e.inPos {
-			// a builder argument: only the value's position is read, at that point of the action
-			if e.posMut[v.i] {
-				*e.bad = append(*e.bad, fmt.Sprintf("a position is computed from $%d, whose position this action also assigns", v.i))
-			}
-			return fmt.Sprintf("(.orig %d)", v.i)
+		if e.inPos || e.inRead > 0 || e.inCond {
+			// read at a definite point of the action: after `ver` stores
+			return fmt.Sprintf("(.argAt %d %d)", v.ver, v.i)
 		}
 		if e.inMut {
-			if e.mutated[v.i] {
-				*e.bad = append(*e.bad, fmt.Sprintf("a value stored into an existing node refers to $%d, which this action also modifies", v.i))
+			// the node itself is stored by store number mutIdx: later stores into it would have to be seen through it
+			if e.lastMutOf[v.i] > e.mutIdx {
+				*e.bad = append(*e.bad, fmt.Sprintf("$%d is stored into an existing node and modified afterwards", v.i))
 			}
-			return fmt.Sprintf("(.orig %d)", v.i)
+			return fmt.Sprintf("(.argAt %d %d)", e.mutIdx, v.i)
 		}
 		return fmt.Sprintf("(.arg %d)", v.i)
 	case "cur":
@@ -685,7 +839,10 @@ func (e *temit) tm(v *sv) string {
 	case "cast":
 		return e.tm(v.b)
 	case "fld":
-		return fmt.Sprintf("(.fld %s %d)", e.tm(v.b), v.i)
+		e.inRead++
+		r := fmt.Sprintf("(.fld %s %d)", e.tm(v.b), v.i)
+		e.inRead--
+		return r
 	case "obj":
 		j, ok := e.objIdx[v.o]
 		if !ok {
@@ -703,6 +860,21 @@ func (e *temit) tm(v *sv) string {
 		return "(.idx0 " + e.tm(v.b) + ")"
 	case "last":
 		return "(.last " + e.tm(v.b) + ")"
+	case "tail":
+		return "(.tail " + e.tm(v.b) + ")"
+	case "init":
+		return "(.init " + e.tm(v.b) + ")"
+	case "chain", "nest":
+		var rows []string
+		for _, r := range v.tbl {
+			k, ok := e.kindNo[r[0]]
+			f := e.t.a.fieldIdx(r[0], r[1])
+			if !ok || f < 0 {
+				*e.bad = append(*e.bad, "fold over unknown "+r[0]+"."+r[1])
+			}
+			rows = append(rows, fmt.Sprintf("(%d, %d)", k, f))
+		}
+		return fmt.Sprintf("(.%s %s %s [%s])", v.k, e.tm(v.b), e.tm(v.xs[0]), strings.Join(rows, ", "))
 	case "bytes":
 		pre := "[]"
 		if v.text != "" {
@@ -724,7 +896,10 @@ func (e *temit) tm(v *sv) string {
 		e.inPos = saved
 		return r
 	case "getpos":
-		return "(.fld " + e.tm(v.b) + " 0)"
+		e.inRead++
+		r := "(.fld " + e.tm(v.b) + " 0)"
+		e.inRead--
+		return r
 	}
 	*e.bad = append(*e.bad, "value: "+v.k+" "+v.text)
 	return ".nil"
@@ -739,6 +914,9 @@ func (e *temit) tms(xs []*sv) string {
 }
 
 func (e *temit) cond(c *scond) string {
+	saved := e.inCond
+	e.inCond = true
+	defer func() { e.inCond = saved }()
 	switch c.op {
 	case "nil":
 		return "(.isNil " + e.tm(c.v) + ")"
@@ -752,6 +930,8 @@ func (e *temit) cond(c *scond) string {
 		return fmt.Sprintf("(.kindIs %s %d)", e.tm(c.v), k)
 	case "atoi":
 		return "(.atoi " + e.tm(c.v) + ")"
+	case "intoff":
+		return fmt.Sprintf("(.intOff %s %v)", e.tm(c.v), c.n == 1)
 	case "not":
 		return "(.not " + e.cond(c.subs[0]) + ")"
 	case "and":
@@ -926,26 +1106,32 @@ func genTerms(c *ctx, a *actx, which string, g *ygrammar, sw *ast.SwitchStmt, s 
 			if cyc {
 				bad = append(bad, "cyclic node literals")
 			}
-			em := &temit{t: t, kindNo: kindNo, combNo: combNo, objIdx: map[*sobj]int{}, bad: &bad, mutated: map[int]bool{}}
-			for _, m := range p.muts {
-				em.mutated[m.i] = true
+			em := &temit{t: t, kindNo: kindNo, combNo: combNo, objIdx: map[*sobj]int{}, bad: &bad, lastMutOf: map[int]int{}}
+			for i := 1; i <= len(prod.Rhs); i++ {
+				em.lastMutOf[i] = -1
 			}
-			em.posMut = map[int]bool{}
-			nPosMut := map[int]int{}
-			for _, m := range p.muts {
-				if m.field == "Position" && len(m.path) == 0 {
-					nPosMut[m.i]++
-				}
+			for k, m := range p.muts {
+				em.lastMutOf[m.i] = k
 			}
-			for i, n := range nPosMut {
-				if n > 1 {
-					em.posMut[i] = true // assigned twice: the second computation may read the first
+			// node literals stored into existing nodes are evaluated at the time of the store
+			inMutObj := map[*sobj]int{}
+			for k, m := range p.muts {
+				var o2 []*sobj
+				c2 := false
+				reachObjs(m.val, map[*sobj]bool{}, &o2, map[*sobj]bool{}, &c2)
+				for _, o := range o2 {
+					if _, ok := inMutObj[o]; !ok {
+						inMutObj[o] = k
+					}
 				}
 			}
 			var objRows []string
 			for j, o := range order {
 				si := a.structs[o.typ]
 				var fs []string
+				if k, ok := inMutObj[o]; ok {
+					em.inMut, em.mutIdx = true, k
+				}
 				if si != nil {
 					for _, f := range si.fields {
 						if v, ok := o.fields[f]; ok {
@@ -955,15 +1141,24 @@ func genTerms(c *ctx, a *actx, which string, g *ygrammar, sw *ast.SwitchStmt, s 
 						}
 					}
 				}
+				em.inMut = false
 				objRows = append(objRows, fmt.Sprintf("{ kind := %d, fields := [%s] }", kindNo[o.typ], strings.Join(fs, ", ")))
 				em.objIdx[o] = j
 			}
 			var mutRows []string
-			em.inMut = true
-			for _, m := range p.muts {
+			for mk, m := range p.muts {
+				em.inMut, em.mutIdx = true, mk
 				var steps []string
 				ok := true
 				for _, st := range m.path {
+					if st == "[idx0]" {
+						steps = append(steps, "1000000")
+						continue
+					}
+					if st == "[last]" {
+						steps = append(steps, "1000001")
+						continue
+					}
 					sp := strings.SplitN(st, ".", 3) // "ast.K.F" or "Helper.F"
 					typ, f := "", ""
 					if len(sp) == 3 {
@@ -1010,6 +1205,26 @@ func genTerms(c *ctx, a *actx, which string, g *ygrammar, sw *ast.SwitchStmt, s 
 			if len(bad) > 0 {
 				side = append(side, map[string]interface{}{"prod": pn, "path": pi, "why": bad, "line": c.fset.Position(cl.Pos()).Line})
 			}
+		}
+	}
+	// helper functions the actions call and the model mirrors by hand: their text is pinned
+	if pf := c.parseFile(filepath.Join("internal", which, "parser.go")); pf != nil {
+		const wantIntOffset = `func intOffset(digits []byte, negative bool) bool { if len(digits) > 1 && digits[0] == '0' { return false } if negative && len(digits) == 1 && digits[0] == '0' { return false } return true }`
+		found := false
+		for _, d := range pf.Decls {
+			if fd, ok := d.(*ast.FuncDecl); ok && fd.Recv == nil && fd.Name.Name == "intOffset" {
+				found = true
+				doc := fd.Doc
+				fd.Doc = nil
+				got := nodeText(fd)
+				fd.Doc = doc
+				if got != wantIntOffset {
+					c.fail(comp, fd.Pos(), "intOffset is not the modelled text (Model/Term.lean intOffsetOk): %s", got)
+				}
+			}
+		}
+		if !found {
+			c.fail(comp, pf.Pos(), "helper intOffset not found in internal/%s/parser.go", which)
 		}
 	}
 	var b strings.Builder
@@ -1067,7 +1282,6 @@ func genTerms(c *ctx, a *actx, which string, g *ygrammar, sw *ast.SwitchStmt, s 
 	b.WriteString("\nend PhpVerif.Gen\n")
 	writeIfChanged(filepath.Join(c.out, "Terms"+sfx+".lean"), b.String())
 	c.side["terms"+sfx] = map[string]interface{}{"paths": len(rows), "unsupported": side, "helpers": helpers}
-	_ = comp
 }
 
 var posCombNames = []string{
